@@ -187,3 +187,413 @@ def run_C01(ck):
             judge(ck, c, ['res'], oracle, 'model_ok')
         else:
             judge(ck, c, ['verdict', 'out', 'pos', 'fl'], lzma_oracle_exact, 'model_ok')
+
+# ------------------------------------------------------------------ LZMA2 chunk sequences
+def exact_size_syms(pb, size):
+    """append symbols to ProgBuilder pb producing exactly `size` more bytes (needs pb.n >= 1 or starts with a literal)"""
+    left = size
+    if pb.maxd() == 0:
+        pb.lit(0x41); left -= 1
+    while left > 0:
+        if left == 1:
+            pb.lit(0x42); left -= 1
+        else:
+            l = min(273, left)
+            if left - l == 1 and l > 2:
+                l -= 1
+            pb.match(1, l); left -= l
+
+def gen_chunk_seq(rng, nchunks, big_size=None):
+    """a well-formed chunk sequence in the syntax of modelrun ref_lzma2; returns (text, stats)"""
+    chunks, stats = [], {}
+    pb = ProgBuilder(None)
+    need_props = True          # liblzma rule: after a dictionary reset the next LZMA chunk carries properties
+    first = True
+    have_props = False
+    for k in range(nchunks):
+        kind = rng.below(10)
+        if first:
+            kind = rng.choice([0, 9])           # must reset the dictionary
+        if big_size and k == nchunks - 1:
+            kind = 9                             # the chunk of the requested exact size is a compressed one
+        if kind <= 2:                            # uncompressed
+            rd = first or rng.chance(1, 4)
+            n = rng.choice([1, 2, 3, 17, 300]) if rng.chance(4, 5) else rng.choice([65535, 65536])
+            data = rng.bytes(n) if n < 1000 else bytes([rng.below(256)]) * n
+            if rd:
+                pb.n = 0; need_props = True
+            chunks.append('U%d:%s' % (1 if rd else 2, hx(data)))
+            pb.n += n
+            stats['U%d' % (1 if rd else 2)] = stats.get('U%d' % (1 if rd else 2), 0) + 1
+        else:
+            if first or (need_props and rng.chance(1, 3)):
+                cls = 3
+            elif need_props or not have_props:
+                cls = rng.choice([2, 3])
+            else:
+                cls = rng.choice([0, 0, 1, 2, 3])
+            if cls == 3:
+                pb.n = 0
+            if cls >= 1:
+                pb.reps = [1, 1, 1, 1]
+            props = '-'
+            if cls >= 2:
+                lc, lp, pbits = rand_props(rng, lzma2=True)
+                props = '%d,%d,%d' % (lc, lp, pbits); have_props = True; need_props = False
+            pb.syms = []
+            if big_size and k == nchunks - 1:
+                exact_size_syms(pb, big_size)
+            else:
+                for _ in range(rng.range(1, 25)):
+                    pb.random_sym(rng, rng.choice([1, 3]))
+            chunks.append('Z%d:%s:0:%s' % (cls, props, pb.text()))
+            stats['Z%d' % cls] = stats.get('Z%d' % cls, 0) + 1
+        first = False
+    return '/'.join(chunks), stats
+
+def gen_lzma2_streams(rng, count, big_sizes=()):
+    reqs, metas = [], []
+    bigs = list(big_sizes)
+    for k in range(count):
+        big = bigs.pop() if bigs and k % 7 == 3 else None
+        text, stats = gen_chunk_seq(rng, rng.range(1, 6), big)
+        reqs.append('ref_lzma2 chunks=' + text)
+        metas.append({'stats': stats, 'big': big, 'ref': ('ref_lzma2 chunks=' + text)[:500]})
+    out = []
+    for enc, meta, rq in zip(ref_encode(reqs), metas, reqs):
+        if enc is None:
+            raise InfraError('reference LZMA2 serialiser rejected a generated sequence: ' + rq[:300])
+        meta = dict(meta); meta['bytes'], meta['out'] = enc
+        out.append(meta)
+    return out
+
+def walk_lzma2(b):
+    """parse the framing of a valid LZMA2 stream -> list of dicts(kind, off, control, hdr_len, payload_len, unpacked, props_off)"""
+    res, p = [], 0
+    while True:
+        c = b[p]
+        if c == 0:
+            res.append({'kind': 'end', 'off': p}); return res
+        if c in (1, 2):
+            n = struct.unpack('>H', b[p + 1:p + 3])[0] + 1
+            res.append({'kind': 'raw', 'off': p, 'hdr_len': 3, 'payload_len': n}); p += 3 + n
+        else:
+            un = ((c & 0x1F) << 16 | struct.unpack('>H', b[p + 1:p + 3])[0]) + 1
+            pk = struct.unpack('>H', b[p + 3:p + 5])[0] + 1
+            hp = 6 if c >= 0xC0 else 5
+            res.append({'kind': 'lzma', 'off': p, 'hdr_len': hp, 'payload_len': pk, 'unpacked': un, 'control': c}); p += hp + pk
+
+def exact_oracle(expected):
+    def oracle(c):
+        r = c['r']
+        if r.get('verdict') != 'ok':
+            return 'well-formed input rejected (%s/%s) by the implementation' % (r.get('verdict'), r.get('why'))
+        if unhx(r.get('out', '-')) != expected:
+            return 'implementation output differs from the bytes the format defines'
+        return None
+    return oracle
+
+@prop('C02', 'LZMA2 chunk sequences (uncompressed/compressed, every reset class, property changes, matches reaching into earlier chunks, chunk sizes 1, 64 KiB, k*64 KiB) serialised by the Coq reference serialiser ser2; decoded through lzma2_decompress, the raw Lzma2Decoder and wrapped in .xz; non-trivial = at least one compressed chunk')
+def run_C02(ck):
+    rng = Rng(ck.seed).fork('C02')
+    n = 250 if ck.tier == 'quick' else 2500
+    bigs = [65536, 131072, 65537, 196608, 262144, 131072] if ck.tier == 'quick' else [65536 * k for k in range(1, 33)] + [65535, 65537, 2097152]
+    streams = gen_lzma2_streams(rng, n, bigs)
+    cases = []
+    for s in streams:
+        for st, v in s['stats'].items(): ck.count('chunk_' + st, v)
+        if s['big']: ck.count('big_chunk_%d' % s['big'])
+        entry = rng.below(3)
+        trail = rng.bytes(rng.range(0, 5)) if entry != 2 else b''
+        rd = rng.choice(['all', '1', '5,2', 'std:buf:%d' % rng.range(1, 50)])
+        if entry == 0:
+            line = 'lzma2_dec in=%s rd=%s' % (hx(s['bytes'] + trail), rd)
+            fields = ['verdict', 'out', 'pos', 'fl']
+            orc = exact_oracle(s['out'])
+        elif entry == 1:
+            line = 'raw_lzma2 ops=d:%s rd=%s' % (hx(s['bytes'] + trail), rd)
+            fields = ['res']
+            exp = s['out']
+            def orc(c, exp=exp):
+                parts = c['r'].get('res', '').split(';')
+                if len(parts) < 2 or not parts[1].startswith('d:ok:'): return 'raw Lzma2Decoder rejected a well-formed stream'
+                if unhx(parts[1].split(':')[2]) != exp: return 'raw Lzma2Decoder output differs from the format-defined bytes'
+                return None
+        else:
+            blk = XzBlock(s['bytes'], s['out'])
+            line = 'xz_dec in=%s rd=%s' % (hx(xz_file([blk], check=rng.choice([0, 1, 4]))), rd)
+            fields = ['verdict', 'out', 'pos']
+            orc = exact_oracle(s['out'])
+        cases.append({'line': line, 'meta': light(s), 'fields': fields, 'oracle': orc, 'nontrivial': any(k.startswith('Z') for k in s['stats'])})
+        ck.count('entry_%d' % entry)
+    run_both(ck, cases)
+    for c in cases:
+        ck.note_case(c['line'], c['nontrivial'])
+        judge(ck, c, c['fields'], c['oracle'], 'model_ok')
+
+# ------------------------------------------------------------------ XZ files
+def gen_xz_files(rng, count, lz2_pool, checks=(0, 1, 4)):
+    """well-formed .xz files built from a pool of LZMA2 streams -> list of dict(bytes, out, blocks, check, desc)"""
+    files = []
+    for k in range(count):
+        nb = rng.choice([0, 1, 1, 1, 2, 3, 4])
+        check = rng.choice(list(checks))
+        blocks = []
+        for _ in range(nb):
+            s = rng.choice(lz2_pool)
+            width = rng.choice([None, None, None, 2, 3, 5, 9])
+            hp = rng.choice([0, 0, 0, 1, 2, 7, 40, 200]) if width is None else rng.choice([0, 1])
+            try:
+                blk = XzBlock(s['bytes'], s['out'], with_packed=rng.chance(1, 2), with_unpacked=rng.chance(1, 2),
+                              header_pad=hp, mb_width=width)
+                xz_block_bytes(blk, check)
+            except ValueError:
+                blk = XzBlock(s['bytes'], s['out'])
+            blocks.append(blk)
+        mbw = rng.choice([None, None, 3, 9])
+        files.append({'bytes': xz_file(blocks, check, mb_width=mbw), 'out': b''.join(b.content for b in blocks),
+                      'blocks': blocks, 'check': check, 'mbw': mbw,
+                      'desc': {'nblocks': nb, 'check': check, 'header_pads': [b.header_pad for b in blocks], 'mb_width': [b.mb_width for b in blocks]}})
+    return files
+
+@prop('C03', '.xz files with 0-4 blocks x check {None, CRC32, CRC64} x optional size fields x header padding (header sizes up to 1024) x payload length mod 4 x multibyte widths 1-9, payloads from the reference LZMA2 serialiser, plus the files under /repo/tests/files; non-trivial = at least one block')
+def run_C03(ck):
+    rng = Rng(ck.seed).fork('C03')
+    pool = gen_lzma2_streams(rng, 60 if ck.tier == 'quick' else 300)
+    files = gen_xz_files(rng, 300 if ck.tier == 'quick' else 3000, pool)
+    cases = []
+    for f in files:
+        rd = rng.choice(['all', 'all', '1', '7,3', 'std:buf:%d' % rng.range(1, 64)])
+        cases.append({'line': 'xz_dec in=%s rd=%s' % (hx(f['bytes']), rd), 'meta': f['desc'], 'oracle': exact_oracle(f['out']), 'nontrivial': f['desc']['nblocks'] > 0})
+        ck.count('blocks_%d' % f['desc']['nblocks']); ck.count('check_%d' % f['check'])
+        for hp in f['desc']['header_pads']: ck.count('header_pad_%d' % hp)
+    for name in sorted(os.listdir('/repo/tests/files')):
+        if name.endswith('.xz'):
+            raw = open('/repo/tests/files/' + name, 'rb').read()
+            exp = open('/repo/tests/files/' + name[:-3], 'rb').read()
+            cases.append({'line': 'xz_dec in=%s' % hx(raw), 'meta': {'file': name}, 'oracle': exact_oracle(exp), 'nontrivial': True})
+            ck.count('repo_files')
+    run_both(ck, cases)
+    for c in cases:
+        ck.note_case(c['line'], c['nontrivial'])
+        judge(ck, c, ['verdict', 'out', 'pos'], c['oracle'], 'model_ok')
+
+# ------------------------------------------------------------------ C06: xz mutants
+def xz_mutants(rng, f, per_file):
+    """(description, bytes) mutants of a well-formed file that each violate exactly one integrity / size field"""
+    blocks, check, out = f['blocks'], f['check'], []
+    nb = len(blocks)
+    def add(desc, **kw):
+        try:
+            out.append((desc, xz_file(blocks, check, mb_width=f['mbw'], **kw)))
+        except ValueError:
+            pass
+    add('header magic', tweak={'magic': bytes([0xFD, 0x37, 0x7A, 0x58, 0x5A, 0x01])})
+    add('footer magic', tweak={'footer_magic': b'YY'})
+    add('header crc', tweak={'header_crc': crc32(bytes([0, check])) ^ (1 << rng.below(32))})
+    add('footer crc', tweak={'footer_crc': rng.below(1 << 32)})
+    add('index crc', tweak={'index_crc': rng.below(1 << 32)})
+    others = [c for c in (0, 1, 4) if c != check]
+    add('footer flags differ', tweak={'fcheck_byte': rng.choice(others)})
+    real_bs = None
+    for delta in (1, -1, 1 << 30, 1 << 31, (1 << 32) - 1):
+        add('backward size %+d' % delta, tweak={'backward_size': (_index_words(f) - 1 + delta) & 0xFFFFFFFF})
+    add('nrecords +1', tweak={'nrecords': nb + 1})
+    if nb:
+        add('nrecords -1', tweak={'nrecords': nb - 1})
+        i = rng.below(nb)
+        add('record unpadded +1', tweak={'records': lambda rs, i=i: [(u + (1 if j == i else 0), v) for j, (u, v) in enumerate(rs)]})
+        add('record unpacked +1', tweak={'records': lambda rs, i=i: [(u, v + (1 if j == i else 0)) for j, (u, v) in enumerate(rs)]})
+        add('record unpacked +2^32', tweak={'records': lambda rs, i=i: [(u, v + ((1 << 32) if j == i else 0)) for j, (u, v) in enumerate(rs)]})
+        add('block header crc', block_tweaks={i: {'header_crc': rng.below(1 << 32)}})
+        if check:
+            add('block check', block_tweaks={i: {'check': rng.below(1 << 32)}})
+        add('block padding nonzero', block_tweaks={i: {'block_padding': lambda p: (b'\x01' + p[1:]) if p else p}})
+        add('header padding nonzero', block_tweaks={i: {'header_padding': lambda p: p[:-1] + b'\x01'}})
+        b0 = blocks[i]
+        for fld, d in (('packed', 1), ('packed', -1), ('unpacked', 1), ('unpacked', -1)):
+            nb2 = list(blocks)
+            kw = dict(with_packed=b0.with_packed or fld == 'packed', with_unpacked=b0.with_unpacked or fld == 'unpacked',
+                      header_pad=b0.header_pad, mb_width=b0.mb_width)
+            if fld == 'packed': kw['packed_override'] = max(0, len(b0.payload) + d)
+            else: kw['unpacked_override'] = max(0, len(b0.content) + d)
+            nb2[i] = XzBlock(b0.payload, b0.content, **kw)
+            try:
+                out.append(('declared %s size %+d' % (fld, d), xz_file(nb2, check, mb_width=f['mbw'])))
+            except ValueError:
+                pass
+    add('index padding nonzero', tweak={'index_padding': lambda p: (p[:-1] + b'\x01') if p else p})
+    add('trailing byte', tweak={'trailer': bytes([rng.below(256)])})
+    # keep only mutants that really differ from the original
+    out = [(d, m) for d, m in out if m != f['bytes']]
+    rng_pick = out if len(out) <= per_file else [out[rng.below(len(out))] for _ in range(per_file)]
+    return rng_pick
+
+def _index_words(f):
+    idx = b'\x00' + multibyte(len(f['blocks']), f['mbw'])
+    for b in f['blocks']:
+        _, u, v = xz_block_bytes(b, f['check'])
+        idx += multibyte(u, f['mbw']) + multibyte(v, f['mbw'])
+    idx += bytes((-len(idx)) % 4)
+    return (len(idx) + 4) // 4
+
+@prop('C06', 'well-formed .xz files x {every integrity / size field replaced with enclosing CRCs recomputed; random and exhaustive single-bit flips; truncation at every byte}; the implementation may report success only if the model does and the output equals the original; non-trivial = mutant differs from the original in a validated field',
+      ['absence of CRC collisions under single-bit flips is tested on the generated files, not proved'])
+def run_C06(ck):
+    rng = Rng(ck.seed).fork('C06')
+    pool = gen_lzma2_streams(rng, 30 if ck.tier == 'quick' else 100)
+    pool = [p for p in pool if len(p['bytes']) < 4000]
+    files = gen_xz_files(rng, 40 if ck.tier == 'quick' else 300, pool, checks=(1, 4, 1, 4, 0))
+    cases = []
+    def add(desc, mutant, f, crc_carrying):
+        cases.append({'line': 'xz_dec in=%s' % hx(mutant), 'meta': {'mutation': desc, 'file': f['desc']}, 'orig_out': f['out'], 'crc': crc_carrying})
+        ck.count('mut_' + desc.split(' +')[0].split(' -')[0][:28])
+    for f in files:
+        for desc, m in xz_mutants(rng, f, 40):
+            add(desc, m, f, False)
+        b = f['bytes']
+        crc_carrying = f['check'] in (1, 4) and f['desc']['nblocks'] > 0
+        nflips = 25 if ck.tier == 'quick' else 120
+        for _ in range(nflips):
+            pos = rng.below(len(b) * 8)
+            m = bytearray(b); m[pos // 8] ^= 1 << (pos % 8)
+            add('bitflip', bytes(m), f, f['check'] in (1, 4))
+        for cut in range(len(b)) if len(b) < 200 or ck.tier != 'quick' else sorted(set(rng.below(len(b)) for _ in range(60)) | set(range(max(0, len(b) - 14), len(b)))):
+            add('truncate', b[:cut], f, False)
+    # exhaustive bit flips of the two CRC-carrying sample files
+    for name in ['block-check-crc32.txt.xz', 'hello.txt.xz'] if ck.tier == 'quick' else [n for n in sorted(os.listdir('/repo/tests/files')) if n.endswith('.xz') and os.path.getsize('/repo/tests/files/' + n) < 3000]:
+        raw = open('/repo/tests/files/' + name, 'rb').read()
+        exp = open('/repo/tests/files/' + name[:-3], 'rb').read()
+        f = {'out': exp, 'desc': {'file': name}, 'check': 1}
+        for pos in range(len(raw) * 8):
+            m = bytearray(raw); m[pos // 8] ^= 1 << (pos % 8)
+            add('bitflip-exhaustive', bytes(m), f, True)
+    run_both(ck, cases)
+    for c in cases:
+        ck.note_case(c['line'])
+        def oracle(c):
+            r = c['r']
+            if r.get('verdict') == 'panic': return 'implementation panicked on a corrupted file'
+            if r.get('verdict') == 'ok':
+                if c['m'].get('verdict') != 'ok' and c['meta']['mutation'] not in ('bitflip', 'bitflip-exhaustive'):
+                    return 'implementation accepted a file whose %s is invalid' % c['meta']['mutation']
+                if unhx(r.get('out', '-')) != c['orig_out'] and (c['crc'] or c['meta']['mutation'] not in ('bitflip', 'bitflip-exhaustive')):
+                    return 'implementation accepted a corrupted file and delivered different output'
+            return None
+        judge(ck, c, ['verdict', 'out'], oracle, 'impl_ok')
+
+# ------------------------------------------------------------------ C17: LZMA2 framing
+@prop('C17', 'well-formed chunk sequences x each framing field set to a boundary-violating value at every chunk position (control 0x03-0x7F, property byte >= 225 or lc+lp > 4, packed size too small, unpacked size below what the payload produces with an overshooting match, end marker inside a chunk, truncated uncompressed chunk, missing end byte), raw and wrapped in .xz; non-trivial = all')
+def run_C17(ck):
+    rng = Rng(ck.seed).fork('C17')
+    streams = gen_lzma2_streams(rng, 120 if ck.tier == 'quick' else 800)
+    cases = []
+    def add(desc, mutant, wrap):
+        if wrap:
+            line = 'xz_dec in=%s' % hx(xz_file([XzBlock(mutant, b'')], check=0))
+        else:
+            line = 'lzma2_dec in=%s rd=%s' % (hx(mutant), rng.choice(['all', '1', '4,9']))
+        cases.append({'line': line, 'meta': {'mutation': desc}})
+        ck.count('mut_' + desc)
+    for s in streams:
+        b = s['bytes']
+        fr = walk_lzma2(b)
+        for ch in fr:
+            wrap = rng.chance(1, 4)
+            o = ch['off']
+            if ch['kind'] == 'end':
+                add('missing_end_byte', b[:o], wrap)
+                add('control_03_7f_at_end', b[:o] + bytes([rng.range(3, 0x7F)]) + b[o + 1:], wrap)
+                continue
+            add('control_03_7f', b[:o] + bytes([rng.range(3, 0x7F)]) + b[o + 1:], wrap)
+            add('truncated_in_chunk', b[:o + rng.range(1, ch['hdr_len'] + ch['payload_len'] - 1)], wrap)
+            if ch['kind'] == 'raw':
+                add('raw_chunk_short', b[:o + 3 + ch['payload_len'] - 1], wrap)
+            else:
+                if ch['control'] >= 0xC0:
+                    add('props_ge_225', b[:o + 5] + bytes([rng.range(225, 255)]) + b[o + 6:], wrap)
+                    bad = rng.choice([pb_ * 45 + lp_ * 9 + lc_ for pb_ in range(5) for lp_ in range(5) for lc_ in range(9) if lc_ + lp_ > 4])
+                    add('props_lc_lp_gt_4', b[:o + 5] + bytes([bad]) + b[o + 6:], wrap)
+                pk = ch['payload_len']
+                if pk >= 2:
+                    newpk = pk - 1
+                    hdr = bytearray(b[o:o + ch['hdr_len']]); hdr[3:5] = struct.pack('>H', newpk - 1)
+                    add('packed_too_small', b[:o] + bytes(hdr) + b[o + ch['hdr_len']:o + ch['hdr_len'] + newpk] + b[o + ch['hdr_len'] + pk:], wrap)
+    # payload/size disagreements built from programs: overshooting match, marker inside the chunk
+    reqs, metas = [], []
+    for k in range(60 if ck.tier == 'quick' else 400):
+        pb = ProgBuilder(None)
+        for _ in range(rng.range(1, 12)): pb.random_sym(rng, 2)
+        lc, lp, pbits = rand_props(rng, lzma2=True)
+        if rng.chance(1, 2):
+            pb.match(pick_dist(rng, pb.maxd()), rng.range(3, 273))      # last symbol is a match of length >= 3
+            reqs.append('ref_lzma2 chunks=Z3:%d,%d,%d:0:%s' % (lc, lp, pbits, pb.text()))
+            metas.append(('unpacked_too_small_overshoot', pb.n, rng.range(1, 2)))
+        else:
+            reqs.append('ref_lzma2 lenient=1 chunks=Z3:%d,%d,%d:0:%s' % (lc, lp, pbits, pb.text(True) + '.L1'))
+            metas.append(('marker_inside_chunk', pb.n, 0))
+    for enc, (desc, n, d) in zip(ref_encode(reqs), metas):
+        if enc is None: raise InfraError('reference serialiser rejected a C17 program')
+        b = bytearray(enc[0])
+        if desc == 'unpacked_too_small_overshoot':
+            un = n - d
+            b[0] = (b[0] & 0xE0) | ((un - 1) >> 16); b[1:3] = struct.pack('>H', (un - 1) & 0xFFFF)
+        else:
+            un = n + 1        # the chunk declares one byte more than the payload produces before its end marker
+            b[0] = (b[0] & 0xE0) | ((un - 1) >> 16); b[1:3] = struct.pack('>H', (un - 1) & 0xFFFF)
+        add(desc, bytes(b), rng.chance(1, 4))
+    run_both(ck, cases)
+    for c in cases:
+        ck.note_case(c['line'])
+        def oracle(c):
+            v = c['r'].get('verdict')
+            if v != 'err': return 'malformed LZMA2 framing (%s) was not rejected with an error: %s' % (c['meta']['mutation'], v)
+            return None
+        judge(ck, c, ['verdict'], oracle, 'both')
+
+# ------------------------------------------------------------------ C18: unsupported XZ features
+@prop('C18', 'well-formed .xz files re-serialised with each unsupported feature: all 16 check IDs, BCJ/delta/random filter IDs, each reserved block-flag and stream-flag bit, concatenated streams, stream padding of 4-16 zero bytes; non-trivial = all except the documented zero-block SHA-256 file')
+def run_C18(ck):
+    rng = Rng(ck.seed).fork('C18')
+    pool = [p for p in gen_lzma2_streams(rng, 20 if ck.tier == 'quick' else 60) if len(p['bytes']) < 3000]
+    files = gen_xz_files(rng, 25 if ck.tier == 'quick' else 200, pool)
+    cases = []
+    def add(desc, b, must_err=True):
+        cases.append({'line': 'xz_dec in=%s' % hx(b), 'meta': {'feature': desc}, 'must_err': must_err}); ck.count('feat_' + desc.split('=')[0])
+    for f in files:
+        blocks, nb = f['blocks'], len(f['blocks'])
+        for cid in range(16):
+            if cid in (0, 1, 4): continue
+            if cid == 10 and nb == 0:
+                add('sha256_zero_blocks', xz_file(blocks, 10, mb_width=f['mbw']), must_err=False)   # documented: nothing is skipped (DESIGN 2.3)
+            else:
+                add('check_id=%d' % cid, xz_file(blocks, cid, mb_width=f['mbw']))
+        for bit in range(8):
+            add('stream_flag0_bit=%d' % bit, xz_file(blocks, f['check'], tweak={'flag0': 1 << bit}, mb_width=f['mbw']))
+        for bit in range(4, 8):
+            add('stream_flag1_bit=%d' % bit, xz_file(blocks, f['check'], tweak={'check_byte': f['check'] | (1 << bit)}, mb_width=f['mbw']))
+        if nb:
+            i = rng.below(nb)
+            b0 = blocks[i]
+            for fid in [3, 4, 5, 6, 7, 8, 9, 0x0A, 0x20, 0x22, rng.range(0x23, 1 << 20), 0x4000000000000021]:
+                nb2 = list(blocks)
+                nb2[i] = XzBlock(b0.payload, b0.content, with_packed=b0.with_packed, with_unpacked=b0.with_unpacked, filter_id=fid,
+                                 props=b'\x16' if fid >= 0x20 else (b'\x00' if fid == 3 else b''))
+                add('filter_id=%#x' % fid, xz_file(nb2, f['check'], mb_width=f['mbw']))
+            for bit in (0x04, 0x08, 0x10, 0x20):
+                nb2 = list(blocks)
+                nb2[i] = XzBlock(b0.payload, b0.content, with_packed=b0.with_packed, with_unpacked=b0.with_unpacked, flags_extra=bit)
+                add('block_flag_reserved=%#x' % bit, xz_file(nb2, f['check'], mb_width=f['mbw']))
+        other = rng.choice(files)
+        add('second_stream', f['bytes'] + other['bytes'])
+        for padlen in (4, 8, 12, 16):
+            add('stream_padding=%d' % padlen, f['bytes'] + bytes(padlen))
+            add('padding_then_stream', f['bytes'] + bytes(padlen) + other['bytes'])
+    run_both(ck, cases)
+    for c in cases:
+        ck.note_case(c['line'], c['must_err'])
+        def oracle(c):
+            if c['must_err'] and c['r'].get('verdict') != 'err':
+                return 'file using an unsupported feature (%s) was not refused: %s' % (c['meta']['feature'], c['r'].get('verdict'))
+            return None
+        judge(ck, c, ['verdict', 'out'], oracle, 'both')
